@@ -80,6 +80,18 @@ pub fn run(ctx: &Ctx) {
         if r.crashed() { ctx.panic_violation(format!("{P}:{sub}:conflict:{}", r.crash_kind()), r.describe(), cmd.replay("selector-conflict", orig, Build::Release)) }
         else if r.ok() || !r.stdout.is_empty() { ctx.violation(format!("{P}:{sub}:conflict:accepted"), format!("--account-index and --hd-path were combined and the command printed {:?}", trunc(&r.line(), 100)), cmd.replay("selector-conflict", orig, Build::Release)) }
     });
+    // `hash data` is Keccak-256 of the input bytes as they are: content classes with prefixes / suffixes text-oriented code treats specially
+    let hd: Vec<(String, Vec<u8>)> = [b"hello".as_slice(), b"\x00\x01\xfe\xff"].iter().flat_map(|c| explore::affix_classes(c)).collect();
+    ctx.sweep("hash-data-content", "`hash data` (file and stdin) on inputs with byte order marks, 0x, white space, NUL, line ends and other lead-ins / tails around a core", (hd.len() * 2) as u64, |i| {
+        let (class, data) = &hd[i as usize / 2]; let via_stdin = i % 2 == 1;
+        let (cmd, file) = if via_stdin { (Cmd::new(&["hash", "data", "-"]).stdin(data), None) } else { let f = scratch_file("hash-data-content", i, "bin", data); (Cmd::new(&["hash", "data", &f]), Some(f)) };
+        let r = cmd.run(Build::Release); if let Some(f) = file { rm(&f); }
+        ctx.sample("hash-data-content", || serde_json::json!({"class": class, "input_hex": hex(data)}));
+        ctx.eval(format!("hash-data:{class}:{}", if r.ok() { "printed" } else { "refused" }));
+        let want = format!("0x{}", hex(&keccak256(data)));
+        if r.crashed() { ctx.panic_violation(format!("{P}:hash data:{}", r.crash_kind()), r.describe(), cmd.replay("hash-data-content", i, Build::Release)) }
+        else if r.out() != format!("{want}\n") { ctx.violation(format!("{P}:hash data:{class}:wrong-output"), format!("printed {:?}, Keccak-256 of the {} input bytes is {want}", trunc(&r.line(), 80), data.len()), cmd.replay("hash-data-content", i, Build::Release)) }
+    });
     // accounts whose key / public key / address begin with zero nibbles or zero bytes (found with the reference):
     // a printer that drops leading zeros is only visible there
     let mut special: Vec<(u32, &str)> = Vec::new(); let mut have = [false; 6];
